@@ -84,9 +84,9 @@ def generate(seed: int, tier: str = "quick") -> dict:
         ct = cur_tick(max(bar, 0))
         kind = rp.choice(
             ["add_by_tick"] * 4 + ["add"] * 2 + ["remove"] * 2 + ["collect", "buy", "sell", "swap", "even", "add_by_value",
-             "read_balance", "read_pos", "est_amount", "est_liq", "t2p", "p2t", "reject", "lend_out", "take_back", "library", "top_up"]
+             "read_balance", "read_pos", "est_amount", "est_liq", "t2p", "p2t", "reject", "lend_out", "take_back", "library", "top_up", "dust_collect"]
         )
-        if n_created == 0 and kind in ("remove", "collect", "read_pos", "est_liq", "lend_out", "take_back", "top_up"):
+        if n_created == 0 and kind in ("remove", "collect", "read_pos", "est_liq", "lend_out", "take_back", "top_up", "dust_collect"):
             kind = "add_by_tick"
         o = None
         where = rp.choice(["below", "in", "in", "above"])  # where the current price sits relative to the range
@@ -158,6 +158,19 @@ def generate(seed: int, tier: str = "quick") -> dict:
         elif kind in ("lend_out", "take_back"):
             # a position handed to another market (and taken back): it leaves the pool's own balance, whichever token is token0
             o = {"op": "uni.transfer_out" if kind == "lend_out" else "uni.transfer_in", "a": {"pos": {"created": rp.randint(0, 7)}}}
+        elif kind == "dust_collect":
+            # a position emptied without collecting, then collected with caps that leave a speck of ONE token behind (less
+            # than one atomic unit of a 6-decimals token, far more than one of an 18-decimals token), then looked at again
+            j = rp.randint(0, 7)
+            speck = rp.choice(["4e-7", "3e-9", "2e-13"])
+            side = rp.choice(["base", "quote"])
+            for o2 in ({"op": "c09.remove", "a": {"pos": {"created": j}, "collect": False}},
+                       {"op": "c09.collect", "a": {"pos": {"created": j}, "max_base": {"pending": True, "minus": speck if side == "base" else "0"},
+                                                     "max_quote": {"pending": True, "minus": speck if side == "quote" else "0"}}},
+                       {"op": "uni.read_balance", "a": {}}):
+                o2.update({"bar": bar, "phase": phase, "m": "uni0"})
+                program.append(o2)
+            o = {"op": "c09.collect", "a": {"pos": {"created": j}}}
         elif kind == "top_up":
             j = rp.randint(0, 7)
             o = {"op": "c09.top_up", "a": {"pos": {"created": j}, "base": {"f": f"wallet:{B}", "x": _frac(rp)}, "quote": {"f": f"wallet:{Q}", "x": _frac(rp)}}}
@@ -300,8 +313,19 @@ def _remove(sim, m, a):
 @op("c09.collect")
 def _collect(sim, m, a):
     p = U.pos_of(m, a.get("pos"), sim)
-    mb = amount(sim, a.get("max_base"))
-    mq = amount(sim, a.get("max_quote"))
+
+    def cap(spec, side):
+        # {"pending": true, "minus": x}: all that is pending of that token but x (a cap that leaves a speck behind)
+        if isinstance(spec, dict) and spec.get("pending"):
+            if p not in m.positions:
+                return None
+            pb, pq = m._convert_pair(m.positions[p].pending_amount0, m.positions[p].pending_amount1)  # (token0, token1) -> (base, quote)
+            have = pb if side == "base" else pq
+            return max(Decimal(0), have - Decimal(spec.get("minus", "0")))
+        return amount(sim, spec)
+
+    mb = cap(a.get("max_base"), "base")
+    mq = cap(a.get("max_quote"), "quote")
     m0, m1 = m._convert_pair(mb, mq)  # (base, quote) -> (token0, token1): harness-side argument mapping only
     kw = {}
     if m0 is not None:
